@@ -72,7 +72,7 @@ def k_violators(d: dict) -> list:
     return sorted(bad)
 
 
-async def _replay(ops):
+async def _replay(ops, finalize=False):
     impl = e2.Impl(3)
     await impl.start()
     try:
@@ -91,14 +91,23 @@ async def _replay(ops):
                 async with impl.db:       # what initialize_boot passes as _safe=True
                     impl.db.execute("UPDATE step SET _safe = 1, _safe_ignoring_hold = 1, _check_safe = 0")
             trace.append((op, oc, detail, await impl.dump()))
+        repair = getattr(impl.wf, "mark_stale_succeeded_steps_pending", None)
+        if finalize and repair is not None:
+            async with impl.db:
+                repair()
+            trace.append((("report_unbuilt_repair",), "ok", "", await impl.dump()))
         return trace
     finally:
         impl.close()
 
 
-def replay(ops):
-    """[(op, outcome, detail, dump)] of the real implementation for a list of operations."""
-    return asyncio.run(asyncio.wait_for(_replay(ops), 60))
+def replay(ops, finalize: bool = False):
+    """[(op, outcome, detail, dump)] of the real implementation for a list of operations.
+
+    finalize=True appends what the first transaction of finalize.report_unbuilt does to the graph
+    at the end of a build when the code has it (``Workflow.mark_stale_succeeded_steps_pending``,
+    the proposed D4 repair); on the unchanged tree it adds nothing."""
+    return asyncio.run(asyncio.wait_for(_replay(ops, finalize), 60))
 
 
 def step_state(d: dict, label: str):
